@@ -86,28 +86,28 @@ class StubDT:
             def fromisoformat(cls, text):
                 t = real_dt.time.fromisoformat(text)        # the real parser decides
                 if t.tzinfo is not None:
-                    r = symdt.time(0)
+                    r = symreal_dt.time(0)
                     r.tzinfo = t.tzinfo
                     return r
-                return symdt.time(relabel(t.hour), relabel(t.minute), relabel(t.second), relabel(t.microsecond))
+                return symreal_dt.time(relabel(t.hour), relabel(t.minute), relabel(t.second), relabel(t.microsecond))
 
         class datetime(symdt.datetime):
             @staticmethod
             def strptime(text, fmt):
                 d = real_dt.datetime.strptime(text, fmt)
-                return symdt.datetime(1900, 1, 1, relabel(d.hour), relabel(d.minute), relabel(d.second), relabel(d.microsecond))
+                return symreal_dt.datetime(1900, 1, 1, relabel(d.hour), relabel(d.minute), relabel(d.second), relabel(d.microsecond))
 
             @classmethod
             def fromisoformat(cls, text):
                 d = real_dt.datetime.fromisoformat(text)
-                return symdt.datetime(d.year, d.month, d.day, d.hour, d.minute, d.second, d.microsecond)
+                return symreal_dt.datetime(d.year, d.month, d.day, d.hour, d.minute, d.second, d.microsecond)
         self.time, self.date, self.datetime = time, symdt.date, datetime
         self.timezone, self.timedelta = real_dt.timezone, real_dt.timedelta
 
 
 # the stub classes used for isinstance-free comparisons must be the symdt base classes
 def T(h, m=0, s=0, us=0):
-    return symdt.time(h, m, s, us)
+    return symreal_dt.time(h, m, s, us)
 
 
 def us_of(t):
@@ -246,9 +246,9 @@ def scen_datetime(env, nranges):
             na = 5 + env.choose(3, f'r{i}_a_len')
             a, b = dt_fields(env, f'r{i}a', na), dt_fields(env, f'r{i}b', 5)
             ranges.append([a, b])
-            ref.append((symdt.datetime(*a), symdt.datetime(*b)))
+            ref.append((symreal_dt.datetime(*a), symreal_dt.datetime(*b)))
         iv = ti.DateTimeInterval(ranges)
-        p = symdt.datetime(*dt_fields(env, 'probe', 7))
+        p = symreal_dt.datetime(*dt_fields(env, 'probe', 7))
         got = p in iv
         x = dtnum(p)
         exp = False
@@ -432,6 +432,50 @@ def scen_roundtrip(env):
         env.check('string-roundtrip', same and lst == sorted(lst), info=lambda: (s, lst, iv.as_string()))
 
 
+GRID = {
+    'time': [[0, 0], [7, 5, 3], [12, 0, 0, 500000], [23, 59, 59, 999999]],
+    'date': [[1, 1], [2, 29], [6, 15], [12, 31]],
+    'datetime': [[2024, 1, 1, 0, 0], [2024, 2, 29, 12, 30, 15], [2030, 12, 31, 23, 59, 59, 250000]],
+}
+
+
+def scen_roundtrip_grid(env, kind):
+    """'feeding that form or the string rendering back yields the same interval': one or two ranges whose endpoints the
+    solver draws from a grid (equal endpoints included: the whole day / a single date / an empty date-time range),
+    rendered with as_string() / str() and as_list() and parsed again (real datetime classes, concrete per path)"""
+    cls = {'time': ti.TimeInterval, 'date': ti.DateInterval, 'datetime': ti.DateTimeInterval}[kind]
+    G = GRID[kind]
+    nr = 1 + env.choose(2, 'nranges')
+    spec = []
+    for r in range(nr):
+        a = G[env.choose(len(G), f'start{r}')]
+        b = G[env.choose(len(G), f'stop{r}')]
+        if a == b:
+            env.note('roundtrip-equal-endpoints')
+        spec.append([a, b])
+    iv = cls(spec)
+    lst = iv.as_list()
+    text = iv.as_string()
+    try:
+        back = cls(text)
+        ok = back.as_list() == lst
+    except Exception as err:
+        ok = False
+        back = err
+    env.check('string-roundtrip', ok, info=lambda: (spec, text, back))
+    env.check('string-roundtrip', cls(lst).as_list() == lst and cls(lst).as_string() == text, info=lambda: (spec, lst))
+    # str() / repr() show the same rendering inside ClassName('...')
+    inner = str(iv)[len(cls.__qualname__) + 2:-2]
+    env.check('string-roundtrip', inner == text and repr(iv).endswith(f"{cls.__qualname__}('{text}')"), info=lambda: (str(iv), text))
+    # membership is unchanged by the round trip
+    if not isinstance(back, Exception):
+        probes = {'time': [real_dt.time(0, 0), real_dt.time(7, 5, 3), real_dt.time(12, 0, 0, 499999), real_dt.time(23, 59, 59, 999999), real_dt.time(9, 9)],
+                  'date': [real_dt.date(2024, 1, 1), real_dt.date(2024, 2, 29), real_dt.date(2023, 6, 15), real_dt.date(2023, 12, 31), real_dt.date(2023, 3, 3)],
+                  'datetime': [real_dt.datetime(2024, 1, 1), real_dt.datetime(2024, 2, 29, 12, 30, 15), real_dt.datetime(2025, 5, 5),
+                               real_dt.datetime(2030, 12, 31, 23, 59, 59, 250000)]}[kind]
+        env.check('string-roundtrip', all((x in iv) == (x in back) for x in probes), info=lambda: (spec, text))
+
+
 MALFORMED = [
     (ti.TimeInterval, ['25:00-1:00', '10:60-11:00', '10:00', '10:00-11:00-12:00', 'abc', '10:00 - ', '1:2:3:4-5:00',
                        '10:00-11:00 x', '10:00/11:00/12:00', '10:00+01:00-11:00']),
@@ -494,13 +538,13 @@ def scen_stub_selftest(env):
     ok = True
     for a in vals_t:
         for b in vals_t:
-            ra, rb, sa, sb = real_dt.time(*a), real_dt.time(*b), symdt.time(*a), symdt.time(*b)
+            ra, rb, sa, sb = real_dt.time(*a), real_dt.time(*b), symreal_dt.time(*a), symreal_dt.time(*b)
             ok = ok and (ra < rb) == bool(sa < sb) and (ra <= rb) == bool(sa <= sb) and (ra == rb) == bool(sa == sb) \
                 and (ra > rb) == bool(sa > sb) and (ra >= rb) == bool(sa >= sb)
     vals_d = [(404, 1, 1), (404, 2, 29), (404, 12, 31), (404, 6, 15), (2024, 2, 28)]
     for a in vals_d:
         for b in vals_d:
-            ra, rb, sa, sb = real_dt.date(*a), real_dt.date(*b), symdt.date(*a), symdt.date(*b)
+            ra, rb, sa, sb = real_dt.date(*a), real_dt.date(*b), symreal_dt.date(*a), symreal_dt.date(*b)
             ok = ok and (ra < rb) == bool(sa < sb) and (ra <= rb) == bool(sa <= sb) and (ra == rb) == bool(sa == sb)
     for bad in ((24, 0), (0, 60), (0, 0, 60), (0, 0, 0, 1000000), (-1, 0)):
         for cls in (real_dt.time, symdt.time):
@@ -525,7 +569,7 @@ def scen_stub_selftest(env):
         with Rebind():
             stub_iv = ti.TimeInterval([sp])
             for pt, r_in in zip(vals_t, real_in):
-                ok = ok and r_in == bool(symdt.time(*pt) in stub_iv)
+                ok = ok and r_in == bool(symreal_dt.time(*pt) in stub_iv)
             ok = ok and stub_iv.as_list() == real_list
     env.check('stub-selftest', ok)
 
@@ -536,6 +580,9 @@ def shards(tier):
            {'name': 'sequence lengths', 'scenario': 'scen_seq_lengths'},
            {'name': 'malformed', 'scenario': 'scen_malformed'},
            {'name': 'roundtrip', 'scenario': 'scen_roundtrip'},
+           {'name': 'roundtrip grid time', 'scenario': 'scen_roundtrip_grid', 'params': {'kind': 'time'}},
+           {'name': 'roundtrip grid date', 'scenario': 'scen_roundtrip_grid', 'params': {'kind': 'date'}},
+           {'name': 'roundtrip grid datetime', 'scenario': 'scen_roundtrip_grid', 'params': {'kind': 'datetime'}},
            {'name': 'weekdays', 'scenario': 'scen_weekdays'}]
     for k in range(1, n + 1):
         out.append({'name': f'time membership {k} ranges', 'scenario': 'scen_time', 'params': {'nranges': k}, 'cost': 10 ** k})
